@@ -220,6 +220,12 @@ func (e *Explorer) Deterministic(x *Execution, same func(a, b *Execution) bool) 
 // default execution returns (same(a, b)).  Violations are reported as
 // <sigPrefix>/concurrent/<clause> with payload.
 func SchedProbe(c *Ctx, sigPrefix, what string, bound int, payload any, body func() any, same func(a, b any) bool) {
+	SchedProbeJudged(c, sigPrefix, what, bound, payload, body, same, nil)
+}
+
+// SchedProbeJudged is SchedProbe with an oracle for the result of the default execution: judge returns ""
+// or what is wrong with it (reported as <sigPrefix>/concurrent/result-wrong).
+func SchedProbeJudged(c *Ctx, sigPrefix, what string, bound int, payload any, body func() any, same func(a, b any) bool, judge func(first any) string) {
 	var first any
 	have := false
 	ex := &Explorer{Ctx: c, NoCount: true, Opts: vrt.Options{Sched: true, MaxSteps: 2000000}, Bound: map[string]int{"sched": bound}, Body: body}
@@ -246,6 +252,11 @@ func SchedProbe(c *Ctx, sigPrefix, what string, bound int, payload any, body fun
 			first, have = x.Result, true
 			if e.Threads > 1 {
 				c.Count("sched_probe_concurrent_operations", 1)
+			}
+			if judge != nil {
+				if why := judge(first); why != "" {
+					bad("result-wrong", why)
+				}
 			}
 		case !same(first, x.Result):
 			bad("result-depends-on-schedule", fmt.Sprintf("%v vs %v", first, x.Result))
